@@ -216,6 +216,16 @@ class Repo(object):
         self.simplified = {}
         self.ref_trees = {}
         self._alpha_normalise()
+        # the view imports what it names (adoption may have brought in names of the confirmed module: xzip ...)
+        if self.ref_trees:
+            from . import aliases
+            for name_, m_ in self.modules.items():
+                if name_ in self.ref_trees and ast.dump(m_.tree) != ast.dump(self.ref_trees[name_]) \
+                        and aliases.complete_imports(m_.tree, self.ref_trees[name_]):
+                    if hasattr(m_, "_imports"):
+                        del m_._imports
+                    ast.fix_missing_locations(m_.tree)
+                    set_parents(m_.tree)
 
     def _alpha_normalise(self):
         """Map renamed local names back to the names of the reference snapshot (see sa/alpha.py)."""
@@ -361,15 +371,6 @@ class Repo(object):
 
     # -- lookup ------------------------------------------------------------
     def mod(self, name):
-        if name in self.modules and name in self.ref_trees and not getattr(self.modules[name], "_imports_completed", False):
-            from . import aliases
-            m_ = self.modules[name]
-            m_._imports_completed = True
-            if ast.dump(m_.tree) != ast.dump(self.ref_trees[name]) and aliases.complete_imports(m_.tree, self.ref_trees[name]):
-                if hasattr(m_, "_imports"):
-                    del m_._imports
-                ast.fix_missing_locations(m_.tree)
-                set_parents(m_.tree)
         if name not in self.modules:
             raise AnalysisError("anchor vanished: module %s" % name)
         self.consulted.add(name)
